@@ -156,6 +156,44 @@ b64_all(void) {
 	}
 }
 
+
+/* tolerant decoder: EVERY byte value outside the RFC 4648 alphabet (and other than '=') is junk and
+ * must be skipped wherever it stands, alone or in runs, also between the padding characters */
+static void
+b64_junk_all(void) {
+	static const char A[] = "ABCDEFGHIJKLMNOPQRSTUVWXYZabcdefghijklmnopqrstuvwxyz0123456789+/";
+	uint8_t msg[9], in[64], out[64]; char ref[32];
+	size_t n, rl, pos, dl, k; int j, rc, run;
+	for (n = 1; n <= 7; n ++) {
+		for (k = 0; k < n; k ++) msg[k] = (uint8_t)(0xfb - 37 * k - n);	/* includes bytes that encode to '+' and '/' */
+		if (3 == n) { msg[0] = 0xfb; msg[1] = 0xef; msg[2] = 0xbe; }	/* "++++" */
+		if (6 == n) { msg[0] = 0xff; msg[1] = 0xff; msg[2] = 0xff; msg[3] = 0xfb; msg[4] = 0xef; msg[5] = 0xbe; } /* "////++++" */
+		rl = ref_b64(msg, n, ref);
+		for (j = 0; j < 256; j ++) {
+			if ('=' == j || (0 != j && NULL != strchr(A, j))) continue;
+			for (run = 1; run <= 2; run ++) for (pos = 0; pos <= rl; pos ++) {
+				if (!vh_begin("base64_decode_fmt_junk")) continue;
+				vh_desc("n=%zu junk=%02x run=%d pos=%zu", n, j, run, pos);
+				memcpy(in, ref, pos); memset(in + pos, j, (size_t)run); memcpy(in + pos + run, ref + pos, rl - pos);
+				dl = 777;
+				rc = base64_decode_fmt(in, rl + (size_t)run, out, sizeof(out), &dl);
+				if (rc != 0) vh_fail("decode_fmt-rc", "rc=%d", rc);
+				else if (dl != n || memcmp(out, msg, n) != 0) vh_fail("decode_fmt-bytes", "len=%zu want %zu", dl, n);
+				else vh_nontrivial();
+			}
+			/* the junk byte between all characters at once */
+			if (!vh_begin("base64_decode_fmt_junk")) continue;
+			vh_desc("n=%zu junk=%02x interleaved", n, j);
+			for (k = 0; k < rl; k ++) { in[2 * k] = (uint8_t)ref[k]; in[2 * k + 1] = (uint8_t)j; }
+			dl = 777;
+			rc = base64_decode_fmt(in, 2 * rl, out, sizeof(out), &dl);
+			if (rc != 0) vh_fail("decode_fmt-rc", "rc=%d", rc);
+			else if (dl != n || memcmp(out, msg, n) != 0) vh_fail("decode_fmt-bytes", "len=%zu want %zu", dl, n);
+			else vh_nontrivial();
+		}
+	}
+}
+
 #include "c14_more.inc"
 
 int
@@ -164,6 +202,7 @@ main(int argc, char **argv) {
 	crc_ref_selfcheck();
 	num_all();
 	b64_all();
+	b64_junk_all();
 	hex_all();
 	strh_all();
 	xmlent_all();
